@@ -13,7 +13,9 @@
      sub-read gsub|gpos TYPE xBYTES pos -> (ok SUBTABLE) | err | fuel (reader not modelled)
        SUBTABLE = (gsub11 (gid ...) delta) | (gsub12 COV (gid ...)) | (gsub21 COV ((gid ...) ...))
                 | (gsub31 COV ((gid ...) ...)) | (gpos11 COV VR) | (gpos12 COV (VR ...))
-       COV = ((gid idx runlen) ...) *)
+       COV = ((gid idx runlen) ...)
+     fl-enc ((xTAG (lookup ...)) ...) -> (ok xBYTES) | panic
+     fl-read xBYTES pos           -> (ok ((xTAG (lookup ...)) ...)) | err *)
 
 let outc (f : 'a -> sx) (o : 'a outcome) : sx =
   match o with
@@ -180,4 +182,11 @@ let () = main_loop (fun c ->
   | [A "sub-read"; tbl; tp; data; pos] ->
     outc (fun st -> L [A "ok"; sx_of_subtable st])
       (m_sub_read (atom tbl = "gpos") (sx_bytes data) (sx_n pos) (sx_n tp))
+  | [A "fl-enc"; fl] ->
+    let fl = List.map (fun f -> match f with
+      | L [t; ls] -> (sx_bytes t, ns_of_sx ls) | _ -> failwith "bad feature") (lst fl) in
+    outc (fun b -> L [A "ok"; A (hex_of_bytes b)]) (m_fl_encode fl)
+  | [A "fl-read"; data; pos] ->
+    outc (fun fl -> L [A "ok"; L (List.map (fun (t, ls) -> L [A (hex_of_bytes t); sx_of_ns ls]) fl)])
+      (m_fl_read (sx_bytes data) (sx_n pos))
   | _ -> failwith "bad case")
